@@ -1,5 +1,7 @@
 """Task used by Engine K (crash-point exploration of the real TaskRunner)."""
+import os
 import sys
+import time
 
 from experimaestro import Param, Task
 
@@ -12,6 +14,11 @@ class CrashTask(Task):
     def execute(self):
         with open("exec.log", "a") as fp:
             fp.write("start\n")
+        # (used by the three-process exploration: the body stays open while the file `hold` exists)
+        if os.path.exists("hold"):
+            deadline = time.time() + 10
+            while os.path.exists("hold") and time.time() < deadline:
+                time.sleep(0.002)
         x = 0
         for i in range(2):
             x += i
